@@ -42,16 +42,18 @@ def step(o, tol):
 
 
 class Sub(BaseModel):
-    ENDOGENOUS = ['A', 'B']
+    # C is endogenous but NOT a check variable, and never settles: convergence is judged on CHECK only
+    ENDOGENOUS = ['A', 'B', 'C']
     EXOGENOUS = ['X']
     PARAMETERS = []
     ERRORS = []
-    NAMES = ['A', 'B', 'X']
+    NAMES = ['A', 'B', 'C', 'X']
     CHECK = ['A', 'B']
 
     def _evaluate(self, t, **kw):
         d = self.__dict__
         LOG.append(('eval', d['tag'], kw.get('iteration')))
+        self._C[t] += 100.0
         o = d['script'][d['n']] if d['n'] < len(d['script']) else 'c'
         d['n'] += 1
         if o in ('e', 'n', 'x', 'i'):
@@ -64,11 +66,12 @@ class Sub(BaseModel):
 
 
 class Lk(BaseLinker):
-    ENDOGENOUS = ['L']
+    # M: the linker's own unchecked endogenous variable, never settles either
+    ENDOGENOUS = ['L', 'M']
     EXOGENOUS = []
     PARAMETERS = []
     ERRORS = []
-    NAMES = ['L']
+    NAMES = ['L', 'M']
     CHECK = ['L']
 
     def evaluate_t_before(self, t, **kw):
@@ -80,6 +83,7 @@ class Lk(BaseLinker):
         o = d['script'][d['n']] if d['n'] < len(d['script']) else 'c'
         d['n'] += 1
         self._L[t] += step(o, d['tol'])
+        self._M[t] -= 100.0
 
     def solve_t_before(self, t, **kw):
         LOG.append(('solve_pre',))
@@ -295,9 +299,10 @@ def run_construct_case(case):
     specs, n = case['specs'], case['n']
     out = []
     subs = {}
-    for j, (lags, leads, lo) in enumerate(specs):
-        subs['s%d' % j] = lagged_class(lags, leads)(range(lo, lo + n))
-    differing = len({lo for _, _, lo in specs}) > 1
+    for j, (lags, leads, lo, extra) in enumerate(specs):
+        subs['s%d' % j] = lagged_class(lags, leads)(range(lo, lo + n + extra))
+    differing = len({(lo, extra) for _, _, lo, extra in specs}) > 1
+    n = n + (specs[0][3] if specs else 0)
     try:
         lk = BaseLinker(subs)
     except Exception as e:
@@ -328,8 +333,9 @@ def run_construct(acc, tier):
     ll = [(0, 0), (1, 0), (0, 2), (2, 1)]
     for k in range(0, 4):
         for combo in itertools.product(ll, repeat=k):
-            for los in itertools.product((0, 1), repeat=k):
-                specs = [(a, b, lo) for (a, b), lo in zip(combo, los)]
+            # spans differ by where they start and/or by how long they are (same start, one span a prefix of the other)
+            for los in itertools.product(((0, 0), (1, 0), (0, 1), (0, -2)), repeat=k):
+                specs = [(a, b, lo, extra) for (a, b), (lo, extra) in zip(combo, los)]
                 case = {'kind': 'construct', 'specs': specs, 'n': n}
                 acc.evaluations += 1
                 acc.nontrivial += 1
